@@ -620,7 +620,7 @@ impl Scenario for Bits {
         let via_run = if self.prop == WProp::C05 && (run / 4) % 2 == 1 { Via::Word } else { Via::Bit };
         let style = STYLES[((run / 8) % STYLES.len() as u64) as usize];
         let max_actions = if tier == Tier::Quick { 30 } else { 80 };
-        let p = TypistParams { style, actions: rng.range(4, max_actions) as usize, stratum: ((run % 3) as u8, ((run / 3) % 16) as u8) };
+        let p = TypistParams { style, actions: marathon(run, rng.range(4, max_actions) as usize), stratum: ((run % 3) as u8, ((run / 3) % 16) as u8) };
         let session = type_session(rng, &cfg, &p);
         let mut kinds = rng.below(1 << 10) as u32;
         if kinds == 0 {
